@@ -315,3 +315,105 @@ GROUPS.append(Group('V3', 'in-place variants return the receiver and equal the c
                     bounds='abstract table (unbounded) for the methods built on slicing/concatenation; concrete tables with '
                     'N<=2/3 change points for the padding methods; strip family on texts of length <=2/3; replace with '
                     'count in {0,1,2}', assumes=['G2', 'A1', 'V5', 'SL']))
+
+
+# ============================================================================================= Z3: AnsiStr.__iter__
+CL_SNEXT = [Clause('advances-by-one', 'post_siter_advances'), Clause('in-range', 'post_siter_in_range'),
+            Clause('yields-AnsiStr-of-the-character-at-that-index', 'post_siter_result')]
+RAISES_SNEXT = {'StopIteration': 'raises_siter_stop'}
+CL_SITER = [Clause('starts-before-first-character-of-the-wrapped-value', 'post_siter_start')]
+
+
+def z3_items(tier):
+    return [['next'], ['iter']]
+
+
+def z3_task(envr, item):
+    if item[0] == 'next':
+        def body(c):
+            ab.install(c)
+            inner, info = ab.abstract_ansistring(c, 'w')
+            j = c.named_int('j', -1)
+            it = PObj('_AnsiStrCharIterator', {'current_idx': j, 's': inner})
+            run_contract(envr, c, '_AnsiStrCharIterator.__next__', it, [], {}, CL_SNEXT, raises=RAISES_SNEXT,
+                         fields={'the_string': inner}, unchanged_on_raise=False)
+        return ContractRun(body, CL_SNEXT, raises=RAISES_SNEXT, use=('ABS',), unchanged_on_raise=False)
+
+    def body2(c):
+        ab.install(c)
+        x, inner = wrapped_ansistr(c, 'w')
+        run_contract(envr, c, 'AnsiStr.__iter__', x, [], {}, CL_SITER, frame=('self',))
+    return ContractRun(body2, CL_SITER, frame=('self',), use=('ABS',))
+
+
+GROUPS.append(Group('Z3', 'iterating an AnsiStr yields AnsiStr(s[0]), AnsiStr(s[1]), ... (one step; induction over steps)',
+                    ['C13', 'C04'], 'U', ['_AnsiStrCharIterator.__next__', '_AnsiStrCharIterator.__init__', 'AnsiStr.__iter__'],
+                    z3_items, z3_task, bounds='none: abstract wrapped value, any iterator position', assumes=['G2', 'V5']))
+
+# ============================================================================================= Z4: AnsiStr.join
+CL_SJOIN = [Clause('AnsiStr-counterpart-of-AnsiString-join', 'post_sjoin_equiv')]
+
+
+def z4_items(tier):
+    kinds = ('ansistring', 'str', 'ansistr')
+    out = [[[]]]
+    for a in kinds:
+        out.append([[a]])
+        for b in kinds:
+            out.append([[a, b]])
+    out.append([['int']])
+    return out
+
+
+def z4_task(envr, item):
+    kinds = item[0]
+
+    def body(c):
+        ab.install(c)
+        args = []
+        for i, k in enumerate(kinds):
+            if k == 'ansistring':
+                args.append(ab.abstract_ansistring(c, 'x%d' % i)[0])
+            elif k == 'ansistr':
+                args.append(wrapped_ansistr(c, 'x%d' % i)[0])
+            elif k == 'str':
+                T = c.opaque_text('Tx%d' % i)
+                T.escfree = True
+                args.append(sym.s_opaque(T))
+            else:
+                args.append(c.named_int('bad%d' % i))
+        run_contract(envr, c, 'AnsiStr.join', None, args, {}, CL_SJOIN, raises={'TypeError': None},
+                     fields={'AnsiString': ClassRef('AnsiString')})
+    return ContractRun(body, CL_SJOIN, raises={'TypeError': None}, use=('ABS',))
+
+
+GROUPS.append(Group('Z4', 'AnsiStr.join is AnsiString.join wrapped as AnsiStr', ['C13', 'C05'], 'U', ['AnsiStr.join'], z4_items,
+                    z4_task, bounds='0-2 arguments, each an abstract AnsiString, AnsiStr or str', assumes=['A1', 'V5']))
+
+# ============================================================================================= Z6: list valued wrappers
+CL_Z6 = [Clause('list-of-AnsiStr-counterparts', 'post_list_wrapper_equiv'),
+         Clause('receiver-untouched', 'post_ansistr_receiver_untouched')]
+
+
+def z6_items(tier):
+    return [['split'], ['rsplit'], ['partition'], ['rpartition']]
+
+
+def z6_task(envr, item):
+    mname = item[0]
+
+    def body(c):
+        ab.install(c)
+        x, inner = wrapped_ansistr(c, 'w')
+        sep = sym.s_opaque(c.opaque_text('Sep', 1))
+        args = [sep] if mname in ('partition', 'rpartition') else [sep, c.named_int('maxsplit')]
+        before = heap.snapshot(inner)
+        run_contract(envr, c, 'AnsiStr.' + mname, x, args, {}, CL_Z6,
+                     fields={'mname': mname, 'margs': tuple(args), 'wrapped': inner, 'wrapped_before': before})
+    return ContractRun(body, CL_Z6, use=('ABS',))
+
+
+GROUPS.append(Group('Z6', 'AnsiStr.split/rsplit/partition/rpartition wrap each piece of the AnsiString result as AnsiStr',
+                    ['C13', 'C11'], 'U', ['AnsiStr.split', 'AnsiStr.rsplit', 'AnsiStr.partition', 'AnsiStr.rpartition'],
+                    z6_items, z6_task, bounds='explicit separator, results of at most 3 pieces; abstract table',
+                    assumes=['G2', 'V5']))
